@@ -596,7 +596,17 @@ func Check(propID, tier string, runsOverride int, workers int) int {
 		}
 		reported++
 		plan, v, tries := Minimise(spec, first.Seed, *first.Config, *first.Plan, c, minBudget)
+		for attempt := 0; v == nil && attempt < 3; attempt++ {
+			// a divergence that depends on Go's map iteration order (C08's subject) is not decided by
+			// the seed: every attempt samples new orders in the primary and in all replicas
+			plan, v, tries = Minimise(spec, first.Seed, *first.Config, *first.Plan, c, minBudget)
+		}
 		if v == nil {
+			if exit == 1 {
+				// other classes of this batch were reproduced and reported; this one is named, not hidden
+				fmt.Fprintf(os.Stderr, "NOTE: violation class %s of run %d did not reproduce in-process in 4 attempts (order-dependent); not reported, the check already fails\n", c, first.Index)
+				continue
+			}
 			fmt.Fprintf(os.Stderr, "HARNESS-ERROR (exit 2): violation %s of run %d did not reproduce in-process\n", c, first.Index)
 			return 2
 		}
@@ -613,7 +623,14 @@ func Check(propID, tier string, runsOverride int, workers int) int {
 		}
 		// verify in a fresh process
 		out, _ := exec.Command(self, "replay", path).CombinedOutput()
+		for attempt := 0; !strings.Contains(string(out), "REPRODUCED class="+c) && attempt < 3; attempt++ {
+			out, _ = exec.Command(self, "replay", path).CombinedOutput() // order-dependent divergences: new map orders per process
+		}
 		if !strings.Contains(string(out), "REPRODUCED class="+c) {
+			if exit == 1 {
+				fmt.Fprintf(os.Stderr, "NOTE: replay of %s (class %s) did not reproduce in 4 fresh processes (order-dependent); not reported, the check already fails\n", path, c)
+				continue
+			}
 			fmt.Fprintf(os.Stderr, "HARNESS-ERROR (exit 2): replay of %s did not reproduce in a fresh process:\n%s\n", path, string(out))
 			return 2
 		}
